@@ -16,4 +16,4 @@ package sdk
 //@   ensures ncalls("a.Targets") >= 1 && callret("a.Targets", 1) != nil ==> err != nil
 //@   ensures ncalls("a.Targets") >= 1 && callret("a.Targets", 1) == nil && len(callret("a.Targets", 0)) == 0 ==> err != nil
 //@   ensures ncalls("g.Persist") >= 1 && callret("g.Persist", 0) != nil ==> err != nil
-//@   loop 1 invariant ncalls("g.Persist") >= 1 ==> callret("g.Persist", 0) == nil
+//@   loop 2 invariant ncalls("g.Persist") >= 1 ==> callret("g.Persist", 0) == nil
